@@ -3,5 +3,6 @@ let () =
   | _ :: "c09" :: file :: _ -> C09.run file
   | _ :: ("c04" | "c07" | "c12" as m) :: file :: _ -> C04.run m file
   | _ :: "c05" :: file :: _ -> C05.run file
+  | _ :: "c11" :: file :: _ -> C11.run file
   | _ :: ("c06" | "c10" as m) :: file :: _ -> Pg.run m file
   | _ -> prerr_endline "usage: oracle <property> <trace>"; exit 2
